@@ -547,9 +547,39 @@ func (s *simConn) serve(call hrpc.Call) {
 		}
 		deliver(&pb.MutateResponse{Processed: &t}, nil)
 	} else {
+		if bytes.HasPrefix(call.Key(), []byte("api-")) {
+			deliver(&pb.GetResponse{Result: simGetResult(call.Key())}, nil)
+			return
+		}
 		t := true
 		deliver(&pb.GetResponse{Result: &pb.Result{Exists: &t}}, nil)
 	}
+}
+
+// simGetResult: what the simulated server answers to a Get of an "api-" row — a function of the
+// row: with or without cells, the exists / stale flags present-and-true, present-and-false or absent.
+func simGetResult(key []byte) *pb.Result {
+	h := fnv.New64a()
+	h.Write(key)
+	v := h.Sum64()
+	r := &pb.Result{}
+	switch v % 3 {
+	case 0:
+		r.Exists = proto.Bool(true)
+	case 1:
+		r.Exists = proto.Bool(false)
+	}
+	switch (v / 3) % 3 {
+	case 0:
+		r.Stale = proto.Bool(true)
+	case 1:
+		r.Stale = proto.Bool(false)
+	}
+	for i := uint64(0); i < (v/9)%3; i++ {
+		r.Cell = append(r.Cell, &pb.Cell{Row: key, Family: []byte("f"), Qualifier: []byte{byte('a' + i)},
+			Value: []byte(fmt.Sprintf("v%d", v%1000+i)), Timestamp: proto.Uint64(v % 100000), CellType: pb.CellType_PUT.Enum()})
+	}
+	return r
 }
 
 // simCounterValue: what the simulated server answers to an Increment of this row.
